@@ -149,11 +149,11 @@ def jobs(prop, tier):
         js.append(_job("B-valgrind", "B", "valgrind", [1, 6, 9, 14], 0.01, 300, optional=True, slack=3))
         js.append(_job("B-asan", "B", "asan", range(NSHARDS), 0.25, 200, optional=True))
     if quick:
-        js.append(_job("B-release", "B", "release", range(NSHARDS), 1.0, 40))
+        js.append(_job("B-release", "B", "release", range(NSHARDS), 1.0, 100))
         if prop in HISTORY_PROPS:
-            js.append(_job("A-release", "A", "release", [3, 11], 1.0, 40))
+            js.append(_job("A-release", "A", "release", [3, 11], 1.0, 100))
         if prop in OVERFLOW_PROPS:
-            js.append(_job("B-dev", "B", "dev", [5], 0.5, 40))
+            js.append(_job("B-dev", "B", "dev", [5], 0.5, 100))
     else:
         js.append(_job("B-release", "B", "release", range(NSHARDS), 1.0, 420))
         js.append(_job("A-release", "A", "release", range(NSHARDS), 0.2, 200))
